@@ -44,6 +44,14 @@ def gen_values(rng, t, n, ts_range=None):
     size = fmt.size_of(t)
     if n == 0:
         return b''
+    if n > 20000 and t not in ('bool', 'ts'):
+        # huge arrays (beyond any block / buffer size a reader or writer may use): random bytes, finite floats
+        b = bytearray(rng.randbytes(n * size))
+        if t in ('f32', 'f32u', 'c64'):
+            b[3::4] = bytes(x & 0x3F | 0x40 if x & 0x7F >= 0x7F else x for x in b[3::4])
+        elif t in ('f64', 'f64u', 'c128'):
+            b[7::8] = bytes(x & 0x3F | 0x40 if x & 0x7F >= 0x7F else x for x in b[7::8])
+        return bytes(b)
     if t == 'bool':
         return bytes(rng.getrandbits(1) for _ in range(n))
     if t == 'ts':
@@ -137,6 +145,7 @@ class Opts(object):
         self.version = None
         self.scaling = None              # callable(rng, spec, chan types) adding NI_Scale properties
         self.equal_shapes_p = 0.0        # chance that all channels share counts (index de-duplication)
+        self.huge_p = 0.0                # chance per world of one channel chunk above 1 MiB (block / buffer sizes)
         self.__dict__.update(kw)
 
 
@@ -176,6 +185,8 @@ def gen_spec(rng, o):
     if rng.random() < o.many_segments_p:
         nseg = rng.randint(100, 130)
     equal_shapes = rng.random() < o.equal_shapes_p
+    huge = rng.random() < o.huge_p
+    huge_done = False
     common_count = rng.randint(1, o.max_count)
     spec = {'version': o.version or rng.choice([4712, 4713]), 'names': names, 'segments': []}
     active = []       # [path, has, idx]
@@ -237,7 +248,10 @@ def gen_spec(rng, o):
                     else:
                         L['index'] = 'full'
                         L['type'] = t
-                        if equal_shapes:
+                        if huge and not huge_done and t not in ('str', 'bool', 'ts') and not interleaved:
+                            L['count'] = rng.randint(int(1.05 * 2**20 / fmt.size_of(t)), int(2.3 * 2**20 / fmt.size_of(t)))
+                            huge_done = True
+                        elif equal_shapes:
                             L['count'] = common_count
                         elif rng.random() < o.big_count_p and not light:
                             L['count'] = rng.randint(200, 400)
@@ -287,7 +301,8 @@ def gen_spec(rng, o):
                             a[2] = {'type': a[2]['type'], 'count': ilv_count}
                     seg['layout'] = 'interleaved'
                 else:
-                    seg['layout'] = 'contiguous'
+                    # some files set the interleaved flag on a segment holding a single string channel
+                    seg['layout'] = 'interleaved' if len(data_objs) == 1 else 'contiguous'
             else:
                 seg['layout'] = 'interleaved' if (interleaved and not data_objs) else 'contiguous'
             seg['listed'] = listed
@@ -311,7 +326,7 @@ def gen_spec(rng, o):
         else:
             r = rng.random()
             chunks = 0 if r < 0.08 else (1 if r < 0.5 else rng.randint(2, o.max_chunks))
-            if light and chunks > 1:
+            if (light or chunk_bytes > 2**20) and chunks > 1:
                 chunks = 1
         seg['chunks'] = chunks
         data = {}
